@@ -1,7 +1,7 @@
 (* Proofs/Send.v — well-formedness of the frames emitted by the Session send
    paths (arpRequest, ICMPv4/ICMPv6 echo, NS, NA), for every configuration,
    every argument and every previous content of the pooled buffer. *)
-From PV Require Import Proofs.SendBase Model.Send Spec.SendKnown.
+From PV Require Import Proofs.SendBase Model.Send Spec.SendRef.
 Open Scope N_scope.
 
 (* ---------------------------------------------------------------- *)
@@ -35,70 +35,34 @@ Proof.
 Qed.
 
 (* ---------------------------------------------------------------- *)
-(* session.go arpRequest (purge probe) *)
-
-(* Every frame is an ARP request that is well-formed once hlen/plen are moved from the
-   Ethernet destination (bytes 4, 5) to the ARP header (bytes 18, 19): the recorded defect. *)
-Lemma arp_request_partial c dst sm si tm ti junk :
+(* session.go arpRequest (purge probe); hlen/plen written to the ARP header since fix 9359b10 *)
+Lemma arp_request_wf c dst sm si tm ti junk :
   mac_ok (host_mac c) -> mac_ok dst -> mac_ok sm -> ip4_ok si -> mac_ok tm -> ip4_ok ti ->
   (42 <= length junk)%nat ->
   exists fr, send_arp_request c dst (sm, si) (tm, ti) junk = Ok [fr] /\
-    nth 4 fr 0 = 6 /\ nth 5 fr 0 = 4 /\
-    wf_arp (host_mac c) dst 1 sm si tm ti (repair_arpreq dst fr) = true.
+    wf_arp (host_mac c) dst 1 sm si tm ti fr = true.
 Proof.
   intros H1 H2 H3 H4 H5 H6 HJ.
   destruct (split_at 42 junk HJ) as (j & rest & -> & Hj).
-  unfold send_arp_request. destruct c as [hm hip hlla rm rip mtu]. cbn [host_mac] in *.
+  unfold send_arp_request. destruct c as [hm hip hlla rm rip mtu]. cbn [host_mac a_mac a_ip fst snd] in *.
   explode_ok hm H1. explode_ok dst H2. explode_ok sm H3. explode_ok si H4. explode_ok tm H5. explode_ok ti H6.
   explode j Hj.
   eexists. split; [cbn; reflexivity|].
-  split; [reflexivity|]. split; [reflexivity|].
   unfold wf_arp. cbn. eqbs.
 Qed.
 
-(* outside the recorded class the frame is well-formed *)
-Lemma arp_request_outside_known c dst sm si tm ti junk fr :
-  mac_ok (host_mac c) -> mac_ok dst -> mac_ok sm -> ip4_ok si -> mac_ok tm -> ip4_ok ti ->
-  (42 <= length junk)%nat ->
-  send_arp_request c dst (sm, si) (tm, ti) junk = Ok [fr] ->
-  known_arpreq_hdr (host_mac c) dst 1 sm si tm ti fr = false ->
-  wf_arp (host_mac c) dst 1 sm si tm ti fr = true.
+(* the probe purge sends for an IPv4 host: broadcast, sender = host, target MAC broadcast, target IP = the host probed *)
+Lemma purge_arp_wf c ip junk :
+  mac_ok (host_mac c) -> ip4_ok (host_ip4 c) -> ip4_ok ip -> (42 <= length junk)%nat ->
+  exists fr, send_purge_arp c ip junk = Ok [fr] /\
+    wf_arp (host_mac c) eth_bcast 1 (host_mac c) (host_ip4 c) eth_bcast ip fr = true.
 Proof.
-  intros H1 H2 H3 H4 H5 H6 HJ Hs Hk.
-  destruct (arp_request_partial c dst sm si tm ti junk H1 H2 H3 H4 H5 H6 HJ) as (fr' & Hs' & A & B & C).
-  rewrite Hs in Hs'. injection Hs' as <-.
-  unfold known_arpreq_hdr in Hk. rewrite A, B, C in Hk. cbn in Hk.
-  destruct (wf_arp (host_mac c) dst 1 sm si tm ti fr); [reflexivity|discriminate].
+  intros H1 H2 H3 HJ. unfold send_purge_arp.
+  apply arp_request_wf; auto; split; try reflexivity; oks.
 Qed.
 
 Definition cfg0 : cfg :=
   mkCfg [0;85;85;85;85;85] [192;168;0;129] [254;128;0;0;0;0;0;0;0;0;0;0;0;1;1;41] [0;102;102;102;102;102] [192;168;0;11] 1500.
-
-(* the purge probe for 192.168.0.5 with a zeroed pool buffer is not a well-formed ARP request *)
-Lemma arp_request_refuted :
-  exists c ip junk fr, mac_ok (host_mac c) /\ ip4_ok (host_ip4 c) /\ ip4_ok ip /\ length junk = EthMaxSize /\
-    send_purge_arp c ip junk = Ok [fr] /\
-    wf_arp (host_mac c) eth_bcast 1 (host_mac c) (host_ip4 c) eth_bcast ip fr = false /\
-    known_arpreq_hdr (host_mac c) eth_bcast 1 (host_mac c) (host_ip4 c) eth_bcast ip fr = true.
-Proof.
-  exists cfg0, [192;168;0;5], (repeat 0 EthMaxSize). eexists.
-  split; [split; [reflexivity|oks]|]. split; [split; [reflexivity|oks]|]. split; [split; [reflexivity|oks]|].
-  split; [reflexivity|]. split; [vm_compute; reflexivity|]. split; vm_compute; reflexivity.
-Qed.
-
-(* non-vacuity of arp_request_outside_known: junk holding 6, 4 at offsets 18, 19 and a destination
-   ending in 06:04 give a frame outside the class *)
-Example arp_request_outside_known_inhabited :
-  exists c dst sm si tm ti junk fr,
-    mac_ok (host_mac c) /\ mac_ok dst /\ (42 <= length junk)%nat /\
-    send_arp_request c dst (sm, si) (tm, ti) junk = Ok [fr] /\
-    known_arpreq_hdr (host_mac c) dst 1 sm si tm ti fr = false.
-Proof.
-  exists cfg0, [2;0;0;0;6;4], [0;85;85;85;85;85], [192;168;0;129], eth_bcast, [192;168;0;5],
-    (repeat 0 18 ++ [6;4] ++ repeat 0 30). eexists.
-  split; [split; [reflexivity|oks]|]. split; [split; [reflexivity|oks]|]. split; [cbn; lia|].
-  split; vm_compute; reflexivity.
-Qed.
 
 (* ---------------------------------------------------------------- *)
 (* ICMP4SendEchoRequest *)
